@@ -47,12 +47,12 @@ func init() {
 // ---------------------------------------------------------------- purity (SSA)
 
 type purity struct {
-	p     *core.Program
-	memo  map[*ssa.Function]int // 0 unknown, 1 in progress, 2 pure, 3 impure
-	why   map[*ssa.Function]string
-	impls map[string][]*ssa.Function // method name -> repository implementations
-	whyMethod map[string]string
-	recvMemo  map[*ssa.Function]bool
+	p                    *core.Program
+	memo                 map[*ssa.Function]int // 0 unknown, 1 in progress, 2 pure, 3 impure
+	why                  map[*ssa.Function]string
+	impls                map[string][]*ssa.Function // method name -> repository implementations
+	whyMethod            map[string]string
+	recvMemo             map[*ssa.Function]bool
 	elemMemo, elemResult map[string]bool
 }
 
@@ -463,8 +463,8 @@ func keyedUpdate(fn *types.Func) (bool, string) {
 		return true, "reflect Set on the field selected by the key"
 	case core.IsMethod(fn, "net/url", "Values", "Add"), core.IsMethod(fn, "net/url", "Values", "Set"):
 		return true, "url.Values keyed by parameter name (Encode sorts by key)"
-	// (net/http.Header is NOT keyed by the name it is given: names are
-	// canonicalised, so "x-a" and "X-A" are one slot, and Add appends)
+		// (net/http.Header is NOT keyed by the name it is given: names are
+		// canonicalised, so "x-a" and "X-A" are one slot, and Add appends)
 	}
 	return false, ""
 }
@@ -994,8 +994,12 @@ func (k *c05) sortedAfter(pk *packages.Package, fd *ast.FuncDecl, o types.Object
 			if cal != nil && cal.Pkg() != nil {
 				name = cal.Pkg().Name() + "." + cal.Name()
 			}
-			if totalSorts[name] && len(px.Args) > 0 && ast.Unparen(px.Args[0]) == ast.Expr(id) {
+			if totalSorts[name] && len(px.Args) > 0 && ast.Unparen(px.Args[0]) == ast.Expr(id) && comparatorIsTotal(info, px, name) {
 				uses = append(uses, use{id.Pos(), "sort", name})
+				return true
+			}
+			if totalSorts[name] && len(px.Args) > 0 && ast.Unparen(px.Args[0]) == ast.Expr(id) {
+				uses = append(uses, use{id.Pos(), "other", "sorted with " + name + " by a key under which different elements can tie (they keep the order they came in)"})
 				return true
 			}
 			if stableSorts[name] {
@@ -1389,6 +1393,10 @@ func c05r1(c *core.Ctx) {
 										classes["SRC"]++
 										c.Pass(key, posOf(p, px), "map-ordered result of "+core.FuncName(src)+" is returned: callers are classified")
 									default:
+										if reason, listed := c05Exceptions[key]; listed {
+											c.Pass(key, posOf(p, px), "reasoned exception: "+reason+" [classifier said: "+why+"]")
+											break
+										}
 										c.Fail(key, posOf(p, px), "map-ordered result of "+core.FuncName(src)+" assigned to "+id.Name+" "+why)
 									}
 									return true
@@ -1561,7 +1569,7 @@ func (k *c05) fieldSortedAfter(pk *packages.Package, fd *ast.FuncDecl, fe *ast.S
 		first = se.Pos()
 		sorted = false
 		if ce, ok := stack[len(stack)-1].(*ast.CallExpr); ok {
-			if cal := calleeOf(info, ce); cal != nil && cal.Pkg() != nil && totalSorts[cal.Pkg().Name()+"."+cal.Name()] && len(ce.Args) > 0 && ast.Unparen(ce.Args[0]) == ast.Expr(se) {
+			if cal := calleeOf(info, ce); cal != nil && cal.Pkg() != nil && totalSorts[cal.Pkg().Name()+"."+cal.Name()] && len(ce.Args) > 0 && ast.Unparen(ce.Args[0]) == ast.Expr(se) && comparatorIsTotal(info, ce, cal.Pkg().Name()+"."+cal.Name()) {
 				sorted = true
 			}
 		}
@@ -1570,13 +1578,75 @@ func (k *c05) fieldSortedAfter(pk *packages.Package, fd *ast.FuncDecl, fe *ast.S
 	return sorted
 }
 
+// comparatorIsTotal: a sort with a comparison function puts a map-ordered
+// slice into an order of its own only when the function compares the elements
+// themselves (x[i] < x[j]): a comparison of something computed from them
+// (http.CanonicalHeaderKey(x[i]), strings.ToLower(x[i]), a field) can tie for
+// different elements, and sort.Slice leaves tied elements in the order they
+// came in, which is the order of the map.
+func comparatorIsTotal(info *types.Info, ce *ast.CallExpr, name string) bool {
+	if name != "sort.Slice" && name != "slices.SortFunc" {
+		return true
+	}
+	if len(ce.Args) < 2 {
+		return false
+	}
+	fl, ok := ast.Unparen(ce.Args[1]).(*ast.FuncLit)
+	if !ok || len(fl.Body.List) != 1 {
+		return false
+	}
+	ret, ok := fl.Body.List[0].(*ast.ReturnStmt)
+	if !ok || len(ret.Results) != 1 {
+		return false
+	}
+	plain := func(e ast.Expr) bool {
+		e = ast.Unparen(e)
+		for {
+			c2, ok := e.(*ast.CallExpr)
+			if !ok {
+				break
+			}
+			if tv, ok := info.Types[c2.Fun]; !ok || !tv.IsType() || len(c2.Args) != 1 {
+				return false
+			}
+			e = ast.Unparen(c2.Args[0])
+		}
+		switch x := e.(type) {
+		case *ast.IndexExpr:
+			return exprStr(x.X) == exprStr(ast.Unparen(ce.Args[0]))
+		case *ast.Ident:
+			// a parameter of the comparison function (slices.SortFunc)
+			if o := info.Uses[x]; o != nil && o.Pos() >= fl.Pos() && o.Pos() <= fl.End() {
+				return true
+			}
+		}
+		return false
+	}
+	switch r := ast.Unparen(ret.Results[0]).(type) {
+	case *ast.BinaryExpr:
+		switch r.Op {
+		case token.LSS, token.GTR, token.LEQ, token.GEQ:
+			return plain(r.X) && plain(r.Y)
+		}
+	case *ast.CallExpr:
+		// cmp.Compare(a, b), strings.Compare(a, b)
+		if cal := calleeOf(info, r); cal != nil && cal.Name() == "Compare" && len(r.Args) == 2 {
+			return plain(r.Args[0]) && plain(r.Args[1])
+		}
+	}
+	return false
+}
+
 // reasonedExceptions: loops whose order-independence rests on a data invariant
 // the classifier cannot see. One named loop each, with the reason.
 var c05Exceptions = map[string]string{
+	"ast.Map.Keys|range:m.items":                                   "the keys are sorted by the position of their first token in the source, and two keys of one literal do not start at the same place: the sort key is different for different elements",
+	"object.MapConverter.From|uses:reflect.Value.MapKeys":          "the keys of the Go map are of string kind and are sorted by their string value, which is the key itself: different keys are different strings",
+	"object.Set.SortedItems|range:s.items":                         "the items are sorted by every field of their hash key in turn, and the set holds one item per hash key: the sort key is different for different elements",
 	"compiler.definitionFromSymbolTable|range:table.symbolsByName": "the map is keyed by each symbol's own name (symbolsByName[s.name] == s), so re-keying by symbol.name cannot collide",
-	"os.VirtualOS.findMount|range:osObj.mounts":                   "strict arg-max over key length among keys that are prefixes of one path: two distinct keys of equal length cannot both be prefixes, so there are no ties",
-	"object.Map.equalsVisit|range:m.items":                        "a conjunction over all entries (false as soon as one differs); the only state the callee touches is the visited set, which is scoped to the path from the root (enter / leave around the descent), so what is decided for an entry does not depend on the entries visited before it",
-	"object.Map.interfaceVisit|range:m.items":                     "each entry is converted into its own key of the result map; the visited set the callee touches is scoped to the path from the root (enter / leave), so the result does not depend on the order of the entries",
+	"os.VirtualOS.findMount|range:osObj.mounts":                    "strict arg-max over key length among keys that are prefixes of one path: two distinct keys of equal length cannot both be prefixes, so there are no ties",
+	"object.Map.equalsVisit|range:m.items":                         "a conjunction over all entries (false as soon as one differs); the only state the callee touches is the visited set, which is scoped to the path from the root (enter / leave around the descent), so what is decided for an entry does not depend on the entries visited before it",
+	"object.Map.interfaceVisit|range:m.items":                      "each entry is converted into its own key of the result map; the visited set the callee touches is scoped to the path from the root (enter / leave), so the result does not depend on the order of the entries",
 }
 
 // sliceIsLocal: the slice (possibly boxed into an interface for sort.Slice) was allocated by this function.
